@@ -52,6 +52,12 @@ def _build(cfg):
         bus.memory_map = MemoryMap(addr_width=s["aw"] + _log2(s["dw"] // s["gran"]), data_width=s["gran"])
         if s.get("align_to") is not None:
             dec.align_to(s["align_to"])
+        if s.get("inspect_before"):
+            # the partly built decoder is looked at (patterns listed, elaborated) after the cursor was moved and before
+            # the next subordinate is placed - possibly BELOW the cursor, ending exactly at it
+            from amaranth.hdl import Fragment
+            list(dec.bus.memory_map.window_patterns())
+            Fragment.get(dec, None)
         bus._verif_range = dec.add(bus, name=(f"w{i}" if s.get("named") else None), addr=s.get("addr"), sparse=s["sparse"])
         subs.append(bus)
         if cfg.get("staged") == i + 1:
@@ -102,7 +108,7 @@ def configs(tier, seed):
         dw = rnd.choice([8, 16, 32, 64])
         gran = rnd.choice([g for g in (8, 16, 32, 64) if g <= dw])
         gbits = _log2(dw // gran)
-        aw = rnd.randint(2, 6 if tier == "quick" else 8) if tries % 25 else rnd.choice([12, 20, 30])
+        aw = rnd.randint(2, 6 if tier == "quick" else 8) if tries % 25 else rnd.choice([12, 20, 30, 58, 61])
         feat = [f for f in FEATS if rnd.random() < 0.5]
         cfg = {"aw": aw, "dw": dw, "gran": gran, "feat": feat, "align": rnd.choice([0, 0, 0, 1, 2, 3]), "subs": [],
                "staged": rnd.choice([None, None, 1, 2]), "enum": rnd.random() < 0.4,
@@ -150,6 +156,22 @@ def configs(tier, seed):
             except ValueError:
                 continue
             out.append(cfg)
+    base = {"feat": ["err", "stall"], "align": 0, "staged": None, "enum": False, "refuse_after": None}
+    sub = lambda aw, dw, gran, **k: dict({"aw": aw, "dw": dw, "gran": gran, "sparse": False, "feat": [], "named": False}, **k)
+    # the cursor is moved past free space, the decoder is inspected, and the next subordinate goes BELOW the cursor,
+    # ending exactly at it (nothing about the map's "next address" changes with that add)
+    out.append(dict(base, aw=5, dw=8, gran=8, subs=[sub(2, 8, 8), sub(2, 8, 8, named=True, align_to=4, inspect_before=True, addr=12)]))
+    out.append(dict(base, aw=6, dw=32, gran=8, subs=[sub(1, 32, 8, named=True),
+                                                     sub(3, 32, 8, align_to=7, inspect_before=True, addr=96, feat=["err"]),
+                                                     sub(2, 32, 8, inspect_before=True, addr=32)]))
+    # many subordinates (a count that is not a multiple of 2, 4 or 8)
+    for count in ((11,) if tier == "quick" else (11, 19, 23)):
+        out.append(dict(base, aw=8, dw=16, gran=8,
+                        subs=[sub(1 + (i % 3), 16, 8, named=bool(i % 2), feat=[["err"], [], ["stall"]][i % 3]) for i in range(count)]))
+    # small windows high up in a very wide address space (their base has more significant bits than a float carries)
+    for aw, dw, gran in ((62, 32, 8), (58, 8, 8)):
+        out.append(dict(base, aw=aw, dw=dw, gran=gran,
+                        subs=[sub(aw - 1, dw, gran)] + [sub(4, dw, gran, named=bool(i % 2)) for i in range(5)]))
     return out
 
 
